@@ -320,11 +320,19 @@ def _analyse(fmt, tier, seed, which, res):
 
     thorough = tier == "thorough"
     surface = fmt.endswith("+surface")
+    shield = fmt.endswith("+shield")  # photoreactions of the self-shielded molecules: only "the emitted expression is valid C" is claimed
     api = fmt.endswith("+api")  # the native types, reactions built through the Python constructor instead of read from a file
     fmt = fmt.split("+")[0]
-    tag = fmt + ("+surface" if surface else "") + ("+api" if api else "")
+    tag = fmt + ("+surface" if surface else "") + ("+api" if api else "") + ("+shield" if shield else "")
     if surface:
         lines, fam = surface_lines(fmt)
+    elif shield:
+        code = {"leeds": 4, "uclchem": "PHOTON"}[fmt]
+        lines, fam = [], []
+        for x in ("H2", "CO", "N2"):
+            for sa, sb, sc in itertools.product((1, -1), (1, 0, -1), (1, 0, -1)):
+                lines.append({"reactants": [x] if fmt == "uclchem" else [x, "PHOTON"], "products": {"H2": ["H", "H"], "CO": ["C", "O"], "N2": ["N", "N"]}[x], "a": lit(fmt, "a", sa), "b": lit(fmt, "b", sb), "c": lit(fmt, "c", sc),
+                              "tmin": "0", "tmax": "0", "idx": len(lines) + 1, "code": code})
     else:
         lines = build_lines(fmt, thorough, seed)
         fam = adjacent_families(fmt)
@@ -343,7 +351,7 @@ def _analyse(fmt, tier, seed, which, res):
         from ..corpus import rx
         spec = {"reactions": [rx(r["reactants"], r["products"], t=int(r["code"]), a=float(r["a"]), b=float(r["b"]), c=float(r["c"]), tmin=float(r["tmin"]), tmax=float(r["tmax"]), idx=r["idx"]) for r in alln],
                 "network": {}, "targets": spec["targets"]}
-    p = proj.render(f"rates-{fmt}" + ("-surface" if surface else "") + ("-api" if api else ""), spec)
+    p = proj.render(f"rates-{fmt}" + ("-surface" if surface else "") + ("-api" if api else "") + ("-shield" if shield else ""), spec)
     if not p.ok:
         # a well-formed file the generator cannot read: that is C07's subject, but nothing can be decided here
         res["errors"].append(f"generator failed on the encoder-written {fmt} file: {p.meta.get('error')}")
@@ -397,6 +405,12 @@ def _analyse(fmt, tier, seed, which, res):
                                     "replay": {"format": fmt, "target": tdir, "stderr": err[-1200:], "source_line": srcline, "file": file_text(fmt, alln)[:4000], "replay_note": "clang++-14 rejects the emitted naunet_rates/naunet_ode source"}})
             else:
                 res["unknown"].append((f"{fmt}/{tdir}:compile", first[-200:]))
+            continue
+        if shield:
+            # the value of these rates contains the opaque shielding tables (outside the claim); that every one of them is
+            # valid C for every sign class of the coefficients has just been decided by the real compiler
+            res["n"] += len(alln)
+            res["ok"] += len(alln)
             continue
         run = ode.run_rates(p, tdir, lifted=L)
         res["functions"].append(f"{tdir}:EvalRates[{fmt}]")
@@ -608,7 +622,7 @@ def _work(args):
 def main(pid, tier):
     chk = Check(pid, tier)
     proj.ensure_venv()
-    fmts = ["kida", "umist", "leeds", "uclchem", "naunet"] + (["krome", "leeds+surface", "uclchem+surface"] if pid == "C06" else []) + ["naunet+api"]
+    fmts = ["kida", "umist", "leeds", "uclchem", "naunet"] + (["krome", "leeds+surface", "uclchem+surface"] if pid == "C06" else ["leeds+shield", "uclchem+shield"]) + ["naunet+api"]
     ctx = mp.get_context("fork")
     with cf.ProcessPoolExecutor(max_workers=6, mp_context=ctx) as ex:
         results = list(ex.map(_work, [(f, tier, chk.seed, pid) for f in fmts]))
